@@ -557,7 +557,12 @@ def _pool_rows(ctx):
         if len(nxt) == 1 and falses:
             e = result_edges(sd, nxt[0][0])
             none = edge_for(e, OPTION, 'None') if e else None
-            if none is not None:
+            walk = render(sd.expr_of_operand(nxt[0][1]['args'][0])) if nxt[0][1]['args'] else ''
+            partial = [a_ for a_ in ('skip(', 'take(', 'step_by(', 'skip_while(', 'take_while(', 'filter(', 'filter_map(', 'map_while(', 'nth(') if a_ in walk]
+            if none is not None and partial and 'chain(' not in walk and 'cycle(' not in walk:
+                out.append(bad(R, key, 'the walk that schedule_dormant exhausts before answering "no dormant thread" covers only part of the thread table (`%s`): a dormant thread outside that part is '
+                               'never offered the work, and at the maximum pool size nobody else is' % partial[0].rstrip('('), fn=sd.name))
+            elif none is not None:
                 if all(edom(sd, none, b) for b in falses):
                     out.append(ok(R, key, '`false` is only reported after the walk over the thread table is exhausted', fn=sd.name))
                 else:
@@ -713,6 +718,35 @@ def _future_rows(ctx):
                 out.append(ok(R, key, 'after taking its state out, every path stores the new state before returning', fn=sp.name))
             elif tgt is not None:
                 out.append(bad(R, key, 'SyncFuture::poll can return while its state is still the placeholder it swapped in: the next poll finds "completed" and the operation is never run or never finished', fn=sp.name))
+    # SyncFuture::poll: while it waits for its slot (and while it waits for the slot job to finish) every poll polls the scheduler future -
+    # that poll is what lets the awaiting task run the queue itself when no pool thread does
+    key = 'SyncFuture::poll|waits-by-polling-the-queue'
+    if sp:
+        sfp = [bb for bb, t in calls(sp, 'FutureExt::poll_unpin') if t['args'] and 'SchedulerFuture' in clean_ty(t['args'][0]['pl']['ty']) and not sp.blocks[bb]['cleanup']]
+        arms = None
+        sw_bb = None
+        for bb, b in enumerate(sp.blocks):
+            t = b['term']
+            if t and t['k'] == 'switch' and not b['cleanup']:
+                for s_ in b['stmts']:
+                    if s_['k'] == 'assign' and s_['rv']['k'] == 'discr' and 'SyncFutureState' in clean_ty(s_['rv']['pl']['ty']) and len(t['targets']) >= 3:
+                        arms = dict((str(v), tb) for v, tb in t['targets'])
+                        sw_bb = bb
+        adt = F.adts.get('desync::SyncFutureState')
+        if arms and adt and sfp:
+            probs = []
+            for vn in ('WaitingForQueue', 'WaitingForScheduler'):
+                dv = [str(v['discr']) for v in adt['variants'] if v['name'] == vn]
+                tgt = arms.get(dv[0]) if dv else None
+                if tgt is None:
+                    continue
+                if not sp.must_pass(tgt, set(sp.exits()) | {sw_bb}, set(sfp)):
+                    probs.append(vn)
+            if probs:
+                out.append(bad(R, key, 'in state %s a poll of the SyncFuture can finish without polling its scheduler future: with no pool thread free the queue is only ever run by that poll, so the operation ahead of the slot '
+                               'is never resumed and the future never resolves' % '/'.join(probs), fn=sp.name))
+            else:
+                out.append(ok(R, key, 'WaitingForQueue and WaitingForScheduler always poll the scheduler future', fn=sp.name))
     # UnsafeJob's destructor always looks for its notification
     uj = F.fn('<desync::UnsafeJob as core::ops::drop::Drop>::drop')
     key = 'UnsafeJob::drop|looks-for-its-notification'
